@@ -14,6 +14,7 @@ from zope.interface import (Interface, implementedBy, providedBy,
                             directlyProvides, classImplements,
                             classImplementsOnly, Declaration)
 from zope.interface.interface import InterfaceClass
+from .common import wmod, newworld
 
 N = ['I0', 'I1', 'I2', 'I3']
 SPECS = N + ['sA', 'sB', 'pb', 'D']
@@ -21,11 +22,12 @@ SPECS = N + ['sA', 'sB', 'pb', 'D']
 
 class World:
     def __init__(self):
+        newworld()
         I = {}
         for n in N:
-            I[n] = InterfaceClass(n, (Interface,), {'__module__': 'w'})
-        self.A = A = type('A', (), {'__module__': 'w'})
-        self.B = B = type('B', (A,), {'__module__': 'w'})
+            I[n] = InterfaceClass(n, (Interface,), {'__module__': wmod()})
+        self.A = A = type('A', (), {'__module__': wmod()})
+        self.B = B = type('B', (A,), {'__module__': wmod()})
         classImplements(A, I['I1'])
         classImplements(B, I['I2'])
         self.b = b = B()
